@@ -99,11 +99,14 @@ package exporter
 //@ func (ep *ExportingProcess) createAndSendIPFIXMsg(set) (n, err)
 //@   requires ep:   ep != nil && !isnil(ep.connToCollector)
 //@   requires set:  setPre(set)
+//@   // the set header carries the set's current length (SendSet updates it before every emission): a caller that skips the update fails here
+//@   requires hdrlen: be16(theSet(set).headerBuffer, 2) == theSet(set).length % 65536
 //@   ensures  seq:  ep.seqNumber == (old(theSet(set).setType) == Data ? (old(ep.seqNumber) + len(theSet(set).records)) % 4294967296 : old(ep.seqNumber))
 //@   ensures  toobig: old(16 + theSet(set).length > 65535) ==> err != nil && $wireN == old($wireN)
 //@   ensures  sent: !old(16 + theSet(set).length > 65535) ==> $wireN == old($wireN) + 1 && len($wireLast) == 16 + old(theSet(set).length)
 //@                    && msgHdr($wireLast, ep.seqNumber, ep.obsDomainID, $lastNow)
 //@                    && (forall q in [16, 20): $wireLast[q] == old(theSet(set).headerBuffer[q - 16]))
+//@   ensures  setlen: !old(16 + theSet(set).length > 65535) ==> be16($wireLast, 18) == old(theSet(set).length)
 //@   ensures  ok:   err == nil ==> n == len($wireLast) && $wireN == old($wireN) + 1
 //@   ensures  dom:  ep.obsDomainID == old(ep.obsDomainID)
 //@   modifies ep.seqNumber, $wireN, $wireLast, $wireLastN, $lastNow, theSet(set).records[*].(*baseRecord).buffer, theSet(set).records[*].(*dataRecord).encodeErr
